@@ -321,6 +321,8 @@ pub struct Outcome {
     pub steps_done: usize,
     /// fallible allocation events observed per step (fault-free recording for enumeration)
     pub fallible: Vec<u32>,
+    /// calls of caller-supplied callbacks (fmt sinks, iterators) observed per step
+    pub callbacks: Vec<u32>,
     /// first violation of a class that does not stop the run
     pub soft: Option<Violation>,
 }
@@ -449,7 +451,7 @@ fn block_of(w: &World, p: Pool, k: usize) -> usize {
 
 pub fn run_ops(ops: &[Op], opts: &RunOpts, stats: &mut Stats, hook: &mut dyn StepHook) -> Outcome {
     simalloc::begin_run(opts.cfg, opts.garbage_seed);
-    let mut out = Outcome { violation: None, harness_error: None, chain: 0x5EED, steps_done: 0, fallible: Vec::with_capacity(ops.len()), soft: None };
+    let mut out = Outcome { violation: None, harness_error: None, chain: 0x5EED, steps_done: 0, fallible: Vec::with_capacity(ops.len()), callbacks: Vec::with_capacity(ops.len()), soft: None };
     let mut env = Env::new(opts.want_text);
     simalloc::track(true);
     let mut w = World::new();
@@ -516,6 +518,7 @@ pub fn run_ops(ops: &[Op], opts: &RunOpts, stats: &mut Stats, hook: &mut dyn Ste
         let fall = simalloc::fallible_events();
         stats.fallible_events += fall;
         out.fallible.push(fall.min(u32::MAX as u64) as u32);
+        out.callbacks.push(env.cb_calls);
         stats.steps += 1;
         if env.skipped {
             stats.skipped += 1;
